@@ -221,7 +221,7 @@ func wsAfter(n templang.Node) string {
 	switch n.K {
 	case "text", "expr", "void", "el":
 		return n.Tr
-	case "slot", "hcomment", "mcomment", "raw", "call":
+	case "slot", "hcomment", "mcomment", "raw", "call", "callb":
 		return n.After
 	}
 	return "v"
@@ -283,7 +283,7 @@ func separateForced(ns []templang.Node, loose bool) []templang.Node {
 		switch cur.K {
 		case "text", "expr", "void", "el":
 			ns[i].Tr = "v"
-		case "slot", "hcomment", "mcomment", "raw", "call":
+		case "slot", "hcomment", "mcomment", "raw", "call", "callb":
 			ns[i].After = "v"
 		}
 	}
@@ -336,6 +336,8 @@ var oddFeatures = []struct {
 }{
 	{templang.OddGoCodeTwo, "GoCode.TwoStatementsOnOneLine"},
 	{templang.OddCondOneLine, "ConditionalAttribute.WrittenOnOneLine"},
+	{templang.OddExprComment, "StringExpression.BlockCommentInsideBraces"},
+	{templang.OddCallBlockOneLine, "TemplElementExpression.BlockWrittenOnOneLine"},
 }
 
 func srcOdd(prog []templang.Node, odd int) string {
